@@ -87,6 +87,40 @@ def guarded(fn, case):
         signal.alarm(0)
 
 
+def run_check(mod, case, **kw):
+    """mod.check(case).  For a deterministic quarter of the cases that carry a graph, the check is first run on the same
+    case with some of the graph's edges missing (result and exceptions ignored); the y0 graph object of that first run is
+    then EDITED into the case's graph with add_directed_edge / add_undirected_edge and handed to the real check.  A user
+    who asks, edits the graph and asks again must get the answer for the edited graph, so the verdict of the second
+    run is judged exactly like that of a fresh run."""
+    from . import y0util
+
+    if getattr(mod, "NO_HISTORY", False):
+        return mod.check(case, **kw)
+    plan = y0util.history_plan(case)
+    if plan is None:
+        return mod.check(case, **kw)
+    g0, g = plan
+    case0 = dict(case)
+    case0["g"] = g0
+    case0["_history_of"] = g  # a check may derive its other arguments from the final graph, so that both runs ask the same question
+    y0util.carry_begin(g0, g)
+    try:
+        try:
+            mod.check(case0, **kw)
+        except (ExampleTimeout, MemoryError, KeyboardInterrupt):
+            raise
+        except Exception:
+            pass
+        y0util.carry_second_stage()
+        out = mod.check(case, **kw)
+        if y0util._CARRY["used"]:
+            out.labels = sorted(set(out.labels) | {"history:query-edit-query"})
+        return out
+    finally:
+        y0util.carry_end()
+
+
 @dataclass
 class Outcome:
     ok: bool = True
@@ -205,7 +239,7 @@ def _shard(args):
             for i, case in enumerate(cases):
                 if i % n_examples != shard_idx:  # n_examples doubles as #shards here
                     continue
-                out = guarded(mod.check, case)
+                out = guarded(lambda c: run_check(mod, c), case)
                 record(case, out)
                 if not out.ok and not out.excluded:
                     stats["failure"] = (case, out.detail)
@@ -250,7 +284,7 @@ def _shard(args):
             elif stats["failure"] is not None and now - stats["t_fail"] > shrink_seconds:
                 pass  # bounded shrinking: every further candidate passes, so the shrinker runs dry quickly
             else:
-                out = guarded(mod.check, case)
+                out = guarded(lambda c: run_check(mod, c), case)
                 record(case, out)
                 if not out.ok and not out.excluded:
                     stats["failure"] = (case, out.detail)
@@ -303,7 +337,7 @@ def run_replay(prop_id: str, path: str) -> int:
         print(f"replay {path}: FAILS: {jdump(pdetail)[:1500]}")
         print(f"VIOLATION property={prop_id} replay={path}")
         return 1
-    out = mod.check(body["case"])
+    out = run_check(mod, body["case"])
     if out.excluded:
         print(f"replay {path}: case lies in open known-finding region {out.excluded}; detail={jdump(out.detail)[:400]}")
         return 0
@@ -335,7 +369,7 @@ def run_property(prop_id: str, tier: str, seed: int) -> int:
             continue
         p = ROOT / pinned
         body = json.loads(p.read_text())
-        out = mod.check(body["case"], ignore_regions=True) if _accepts_ignore(mod) else mod.check(body["case"])
+        out = run_check(mod, body["case"], ignore_regions=True) if _accepts_ignore(mod) else run_check(mod, body["case"])
         failed = not out.ok
         replayed.append({"id": entry["id"], "status": entry["status"], "still_fails": failed})
         if entry["status"] == "open":
@@ -352,7 +386,7 @@ def run_property(prop_id: str, tier: str, seed: int) -> int:
     # 2. pinned regression replays (plain inputs that must pass)
     for p in sorted(REPLAY_DIR.glob(f"{prop_id}_reg_*.json")):
         body = json.loads(p.read_text())
-        out = mod.check(body["case"])
+        out = run_check(mod, body["case"])
         replayed.append({"id": p.name, "status": "regression", "still_fails": not out.ok and not out.excluded})
         if not out.ok and not out.excluded:
             violations.append(str(p))
